@@ -201,6 +201,12 @@ func TaggedContext(parent context.Context, tag int) (context.Context, context.Ca
 	return context.WithCancel(context.WithValue(parent, ctxTagKey{}, tag))
 }
 
+// Retag wraps a context so that it carries a new tag: a distinct context with the
+// same Done channel, deadline and cancellation as its parent.
+func Retag(parent context.Context, tag int) context.Context {
+	return context.WithValue(parent, ctxTagKey{}, tag)
+}
+
 // Tag extracts the tag of a context derived from TaggedContext (-1 if none).
 func Tag(ctx context.Context) int {
 	if ctx == nil {
